@@ -8,7 +8,7 @@ MUT = os.environ.get("SEED_MUT", "/tmp/mut")  # scratch worktree of /repo (a sec
 ENV = dict(os.environ, GOFLAGS="-mod=mod", GOPROXY="off", GOSUMDB="off", GOTOOLCHAIN="local", VERIF_REPO=MUT, VERIF_WORK=os.environ.get("SEED_WORK", os.path.join(V, ".work-sweep")))
 EXTRA = {
     "C11-c": ["C05"], "C14-c": ["C18"], "C03-d": ["C11"], "C06-c": ["C05"], "C09-d": ["C12", "C15"], "C10-d": ["C17"],
-    "C12-c": ["C06"], "C02-q": ["C01"], "C01-s": ["C12", "C13"], "C04-u": ["C12"], "C04-v": ["C01"], "C11-v": ["C17"], "C14-u": ["C19", "C07"], "C16-u": ["C11", "C13"], "C16-v": ["C01", "C02"], "C17-u": ["C12"], "C17-v": ["C12"], "C19-o": ["C14", "C16"], "C19-p": ["C14", "C16"], "C02-r": ["C03"], "C03-q": ["C12"], "C05-t": ["C06"], "C06-s": ["C12"], "C09-s": ["C15"], "C10-t": ["C17"], "C12-r": ["C13"], "C13-u": ["C16"], "C13-v": ["C16", "C19"], "C01-q": ["C12", "C02"], "C01-r": ["C04", "C02"], "C04-t": ["C13", "C01"], "C14-s": ["C15", "C11"], "C14-t": ["C18"], "C16-s": ["C17"], "C17-s": ["C14", "C13"], "C17-t": ["C04"], "C19-m": ["C16"], "C19-n": ["C02", "C09"], "C20-m": ["C12"], "C12-p": ["C13", "C17"], "C07-p": ["C11"], "C08-o": ["C13", "C15"], "C08-p": ["C13", "C17", "C12"], "C09-q": ["C07"], "C09-r": ["C15"], "C10-r": ["C17", "C14"], "C11-s": ["C17", "C14"], "C11-t": ["C14"], "C12-o": ["C17", "C16"], "C13-s": ["C16"], "C13-t": ["C12", "C16"], "C15-q": ["C11"], "C01-o": ["C02"], "C01-p": ["C12", "C02"], "C02-o": ["C17", "C14"], "C02-p": ["C13", "C01"], "C03-o": ["C12", "C04"], "C03-p": ["C13"], "C04-q": ["C06"], "C04-r": ["C10", "C11"], "C05-r": ["C17"], "C06-q": ["C12"], "C06-r": ["C12"], "C14-q": ["C11"], "C16-r": ["C14"], "C10-o": ["C17"], "C11-q": ["C17", "C13"], "C11-r": ["C14", "C13"], "C12-m": ["C07", "C09"], "C12-n": ["C13", "C17"], "C13-q": ["C11"], "C13-r": ["C16"], "C15-o": ["C11"], "C15-p": ["C04", "C09"], "C17-r": ["C10"], "C20-l": ["C12"], "C08-m": ["C07", "C09"], "C08-n": ["C13", "C11"], "C02-m": ["C01"], "C02-n": ["C03", "C01"], "C03-n": ["C17", "C01"], "C04-o": ["C11", "C17", "C13"], "C04-p": ["C11"], "C05-o": ["C06"], "C05-p": ["C06"], "C06-o": ["C05"], "C06-p": ["C15", "C11"], "C07-n": ["C11", "C09"], "C09-o": ["C15"], "C09-p": ["C07"], "C01-m": ["C17", "C12"], "C01-n": ["C03"], "C11-o": ["C09", "C15"], "C11-p": ["C13", "C01"], "C13-o": ["C11"], "C13-p": ["C06", "C12"], "C14-p": ["C17", "C11"], "C16-o": ["C12", "C17"], "C16-p": ["C17", "C12"], "C17-o": ["C11"], "C17-p": ["C14", "C13"], "C19-l": ["C02", "C09"], "C03-k": ["C11", "C13"], "C03-l": ["C01"], "C04-m": ["C06", "C05"], "C04-n": ["C01", "C09"], "C06-m": ["C05", "C11"], "C08-k": ["C07", "C09"], "C08-l": ["C15"], "C09-n": ["C04", "C01"], "C10-m": ["C17"], "C10-n": ["C16", "C17"], "C15-m": ["C08"], "C15-n": ["C11"], "C02-k": ["C11"], "C02-l": ["C13", "C17"], "C02-l": ["C04", "C01"], "C07-l": ["C13", "C08"], "C13-m": ["C12"], "C13-n": ["C16"], "C14-m": ["C09"], "C14-n": ["C13", "C17"], "C11-m": ["C10"], "C16-n": ["C13", "C14"], "C17-m": ["C13"], "C17-n": ["C16"], "C01-k": ["C02"], "C01-l": ["C02", "C09"], "C09-k": ["C15"], "C10-k": ["C17"], "C10-l": ["C17"], "C12-k": ["C06"], "C12-l": ["C17"], "C15-k": ["C08"], "C15-l": ["C06", "C11"], "C19-j": ["C02"], "C20-j": ["C12"], "C02-i": ["C04", "C01"], "C02-j": ["C09", "C01"], "C03-i": ["C11", "C12"], "C03-j": ["C17", "C12", "C01"], "C04-k": ["C11"], "C04-l": ["C13", "C01"], "C06-l": ["C12"], "C07-i": ["C11"], "C08-i": ["C15"], "C08-j": ["C13", "C11"], "C16-k": ["C13"], "C16-l": ["C17"], "C17-k": ["C03"], "C17-l": ["C16"], "C01-i": ["C02", "C19"], "C01-j": ["C12", "C02"], "C05-l": ["C14", "C17"], "C11-k": ["C17", "C14"], "C11-l": ["C13", "C17"], "C13-k": ["C16"], "C13-l": ["C01", "C04"], "C14-k": ["C13", "C11"], "C15-i": ["C11"], "C04-i": ["C12"], "C04-j": ["C06", "C12"], "C06-i": ["C05"], "C06-j": ["C12"], "C10-i": ["C17"], "C10-j": ["C17"], "C12-i": ["C04"], "C12-j": ["C17"], "C16-i": ["C12", "C03"], "C16-j": ["C12", "C17"], "C17-i": ["C13", "C10"], "C17-j": ["C13", "C11"], "C19-g": ["C02"], "C19-h": ["C02"], "C02-g": ["C01"], "C02-h": ["C11", "C13"], "C03-g": ["C12"], "C03-h": ["C04"], "C05-j": ["C17", "C11"], "C07-h": ["C12", "C14"], "C08-g": ["C15", "C09"], "C08-h": ["C07", "C11"], "C11-i": ["C06", "C15"], "C11-j": ["C03"], "C13-i": ["C12", "C06"], "C13-j": ["C12", "C17"], "C14-j": ["C11"], "C10-h": ["C17", "C13"], "C10-g": ["C17"], "C15-h": ["C06"], "C12-g": ["C06"], "C12-h": ["C03"], "C16-h": ["C13", "C17", "C12"], "C15-g": ["C08"], "C06-h": ["C05"], "C14-h": ["C18"], "C14-g": ["C12"], "C17-g": ["C13", "C10"], "C13-g": ["C17"], "C13-h": ["C17", "C10"], "C04-h": ["C13", "C12"], "C11-g": ["C01", "C13"], "C11-h": ["C13"], "C02-e": ["C01", "C12"], "C02-f": ["C12"], "C03-e": ["C04"], "C03-f": ["C12"], "C08-e": ["C13"], "C20-f": ["C12"], "C12-e": ["C06"], "C15-e": ["C09"], "C09-f": ["C15"], "C11-f": ["C01", "C02"], "C14-f": ["C18"], "C04-e": ["C06"], "C04-f": ["C12"], "C01-d": ["C17", "C16"], "C15-c": ["C06"], "C15-d": ["C11"], "C12-d": ["C13"],  # other checks worth trying when the property's own check misses, or known to catch it too
+    "C12-c": ["C06"], "C02-q": ["C01"], "C08-q": ["C07", "C09"], "C08-r": ["C13"], "C15-t": ["C09"], "C01-s": ["C12", "C13"], "C04-u": ["C12"], "C04-v": ["C01"], "C11-v": ["C17"], "C14-u": ["C19", "C07"], "C16-u": ["C11", "C13"], "C16-v": ["C01", "C02"], "C17-u": ["C12"], "C17-v": ["C12"], "C19-o": ["C14", "C16"], "C19-p": ["C14", "C16"], "C02-r": ["C03"], "C03-q": ["C12"], "C05-t": ["C06"], "C06-s": ["C12"], "C09-s": ["C15"], "C10-t": ["C17"], "C12-r": ["C13"], "C13-u": ["C16"], "C13-v": ["C16", "C19"], "C01-q": ["C12", "C02"], "C01-r": ["C04", "C02"], "C04-t": ["C13", "C01"], "C14-s": ["C15", "C11"], "C14-t": ["C18"], "C16-s": ["C17"], "C17-s": ["C14", "C13"], "C17-t": ["C04"], "C19-m": ["C16"], "C19-n": ["C02", "C09"], "C20-m": ["C12"], "C12-p": ["C13", "C17"], "C07-p": ["C11"], "C08-o": ["C13", "C15"], "C08-p": ["C13", "C17", "C12"], "C09-q": ["C07"], "C09-r": ["C15"], "C10-r": ["C17", "C14"], "C11-s": ["C17", "C14"], "C11-t": ["C14"], "C12-o": ["C17", "C16"], "C13-s": ["C16"], "C13-t": ["C12", "C16"], "C15-q": ["C11"], "C01-o": ["C02"], "C01-p": ["C12", "C02"], "C02-o": ["C17", "C14"], "C02-p": ["C13", "C01"], "C03-o": ["C12", "C04"], "C03-p": ["C13"], "C04-q": ["C06"], "C04-r": ["C10", "C11"], "C05-r": ["C17"], "C06-q": ["C12"], "C06-r": ["C12"], "C14-q": ["C11"], "C16-r": ["C14"], "C10-o": ["C17"], "C11-q": ["C17", "C13"], "C11-r": ["C14", "C13"], "C12-m": ["C07", "C09"], "C12-n": ["C13", "C17"], "C13-q": ["C11"], "C13-r": ["C16"], "C15-o": ["C11"], "C15-p": ["C04", "C09"], "C17-r": ["C10"], "C20-l": ["C12"], "C08-m": ["C07", "C09"], "C08-n": ["C13", "C11"], "C02-m": ["C01"], "C02-n": ["C03", "C01"], "C03-n": ["C17", "C01"], "C04-o": ["C11", "C17", "C13"], "C04-p": ["C11"], "C05-o": ["C06"], "C05-p": ["C06"], "C06-o": ["C05"], "C06-p": ["C15", "C11"], "C07-n": ["C11", "C09"], "C09-o": ["C15"], "C09-p": ["C07"], "C01-m": ["C17", "C12"], "C01-n": ["C03"], "C11-o": ["C09", "C15"], "C11-p": ["C13", "C01"], "C13-o": ["C11"], "C13-p": ["C06", "C12"], "C14-p": ["C17", "C11"], "C16-o": ["C12", "C17"], "C16-p": ["C17", "C12"], "C17-o": ["C11"], "C17-p": ["C14", "C13"], "C19-l": ["C02", "C09"], "C03-k": ["C11", "C13"], "C03-l": ["C01"], "C04-m": ["C06", "C05"], "C04-n": ["C01", "C09"], "C06-m": ["C05", "C11"], "C08-k": ["C07", "C09"], "C08-l": ["C15"], "C09-n": ["C04", "C01"], "C10-m": ["C17"], "C10-n": ["C16", "C17"], "C15-m": ["C08"], "C15-n": ["C11"], "C02-k": ["C11"], "C02-l": ["C13", "C17"], "C02-l": ["C04", "C01"], "C07-l": ["C13", "C08"], "C13-m": ["C12"], "C13-n": ["C16"], "C14-m": ["C09"], "C14-n": ["C13", "C17"], "C11-m": ["C10"], "C16-n": ["C13", "C14"], "C17-m": ["C13"], "C17-n": ["C16"], "C01-k": ["C02"], "C01-l": ["C02", "C09"], "C09-k": ["C15"], "C10-k": ["C17"], "C10-l": ["C17"], "C12-k": ["C06"], "C12-l": ["C17"], "C15-k": ["C08"], "C15-l": ["C06", "C11"], "C19-j": ["C02"], "C20-j": ["C12"], "C02-i": ["C04", "C01"], "C02-j": ["C09", "C01"], "C03-i": ["C11", "C12"], "C03-j": ["C17", "C12", "C01"], "C04-k": ["C11"], "C04-l": ["C13", "C01"], "C06-l": ["C12"], "C07-i": ["C11"], "C08-i": ["C15"], "C08-j": ["C13", "C11"], "C16-k": ["C13"], "C16-l": ["C17"], "C17-k": ["C03"], "C17-l": ["C16"], "C01-i": ["C02", "C19"], "C01-j": ["C12", "C02"], "C05-l": ["C14", "C17"], "C11-k": ["C17", "C14"], "C11-l": ["C13", "C17"], "C13-k": ["C16"], "C13-l": ["C01", "C04"], "C14-k": ["C13", "C11"], "C15-i": ["C11"], "C04-i": ["C12"], "C04-j": ["C06", "C12"], "C06-i": ["C05"], "C06-j": ["C12"], "C10-i": ["C17"], "C10-j": ["C17"], "C12-i": ["C04"], "C12-j": ["C17"], "C16-i": ["C12", "C03"], "C16-j": ["C12", "C17"], "C17-i": ["C13", "C10"], "C17-j": ["C13", "C11"], "C19-g": ["C02"], "C19-h": ["C02"], "C02-g": ["C01"], "C02-h": ["C11", "C13"], "C03-g": ["C12"], "C03-h": ["C04"], "C05-j": ["C17", "C11"], "C07-h": ["C12", "C14"], "C08-g": ["C15", "C09"], "C08-h": ["C07", "C11"], "C11-i": ["C06", "C15"], "C11-j": ["C03"], "C13-i": ["C12", "C06"], "C13-j": ["C12", "C17"], "C14-j": ["C11"], "C10-h": ["C17", "C13"], "C10-g": ["C17"], "C15-h": ["C06"], "C12-g": ["C06"], "C12-h": ["C03"], "C16-h": ["C13", "C17", "C12"], "C15-g": ["C08"], "C06-h": ["C05"], "C14-h": ["C18"], "C14-g": ["C12"], "C17-g": ["C13", "C10"], "C13-g": ["C17"], "C13-h": ["C17", "C10"], "C04-h": ["C13", "C12"], "C11-g": ["C01", "C13"], "C11-h": ["C13"], "C02-e": ["C01", "C12"], "C02-f": ["C12"], "C03-e": ["C04"], "C03-f": ["C12"], "C08-e": ["C13"], "C20-f": ["C12"], "C12-e": ["C06"], "C15-e": ["C09"], "C09-f": ["C15"], "C11-f": ["C01", "C02"], "C14-f": ["C18"], "C04-e": ["C06"], "C04-f": ["C12"], "C01-d": ["C17", "C16"], "C15-c": ["C06"], "C15-d": ["C11"], "C12-d": ["C13"],  # other checks worth trying when the property's own check misses, or known to catch it too
     "C03-b": ["C12"], "C08-a": ["C01", "C13"], "C11-b": ["C06"], "C15-b": ["C12"], "C09-b": ["C07"], "C07-a": ["C09"],
 }
 names = sys.argv[1:] or sorted(os.path.basename(p) for p in glob.glob(V + "/seeded/C*"))
